@@ -94,6 +94,129 @@ def rule_esc(ctx):
                 '%s:%d Operator.pred indexes _precedences with the token name; '
                 '%s can produce %s' % (pred.module.rel, pred.lineno, c.name,
                                        ', '.join(repr(m) for m in missing))]
+    # the same for every other token class: `self.<table>[self.name]` in a
+    # method the parser reaches, where <table> is a class-level mapping with
+    # constant keys - the names the class regex can produce (all case variants
+    # when it is compiled with IGNORECASE) must be keys of the table
+    for c in TL.parser_filters(ctx):
+        if p.is_subclass(c, op):
+            continue
+        r0 = TL.class_regex(ctx, c, '_re')
+        subs = r0.groups_named('name') if r0 is not None else []
+        if not subs:
+            continue
+        lang = None
+        for k in p.mro(c):
+            for m_ in k.methods.values():
+                if m_.fq not in reach or not m_.params:
+                    continue
+                sn = m_.params[0]
+                for n in own_nodes(m_):
+                    if not (isinstance(n, ast.Subscript) and isinstance(
+                            n.ctx, ast.Load) and isinstance(
+                            n.value, ast.Attribute) and isinstance(
+                            n.value.value, ast.Name) and
+                            n.value.value.id == sn):
+                        continue
+                    key, fold = n.slice, None
+                    if isinstance(key, ast.Call) and isinstance(
+                            key.func, ast.Attribute) and key.func.attr in (
+                            'upper', 'lower') and not key.args:
+                        key, fold = key.func.value, key.func.attr
+                    if not (isinstance(key, ast.Attribute) and
+                            key.attr == 'name' and isinstance(
+                            key.value, ast.Name) and key.value.id == sn):
+                        continue
+                    tab = TL.class_const(ctx, c, n.value.attr)
+                    from ..peval import DictV
+                    if not (isinstance(tab, DictV) and tab.items and all(
+                            is_const(k_, str) for k_, _v in tab.items)):
+                        continue
+                    keys = {k_.v for k_, _v in tab.items}
+                    # the alternatives of the regex that can be the match
+                    # here: under `self.has_<g>` only those with group g,
+                    # under its negation only those without
+                    from ..util import path_conditions
+                    stmt_ = None
+                    for st_ in own_nodes(m_):
+                        if isinstance(st_, ast.stmt) and any(
+                                x is n for k2, v2 in ast.iter_fields(st_)
+                                if k2 not in ('body', 'orelse', 'finalbody',
+                                              'handlers')
+                                for v3 in (v2 if isinstance(v2, list) else [v2])
+                                if isinstance(v3, ast.AST)
+                                for x in ast.walk(v3)):
+                            stmt_ = st_
+                    here = list(subs)
+                    conds_ = list(path_conditions(m_, stmt_)
+                                  if stmt_ is not None else [])
+                    if m_.name.startswith('_') and not m_.name.startswith(
+                            '__'):
+                        # a private method runs under the conditions that hold
+                        # at every place it is called on the same object
+                        sites = []
+                        for k3 in p.mro(c):
+                            for m3 in k3.methods.values():
+                                if not m3.params:
+                                    continue
+                                for st3 in own_nodes(m3):
+                                    if isinstance(st3, ast.stmt) and any(
+                                            isinstance(x, ast.Call) and
+                                            isinstance(x.func, ast.Attribute)
+                                            and x.func.attr == m_.name and
+                                            isinstance(x.func.value, ast.Name)
+                                            and x.func.value.id == m3.params[0]
+                                            for k4, v4 in ast.iter_fields(st3)
+                                            if k4 not in ('body', 'orelse',
+                                                          'finalbody',
+                                                          'handlers')
+                                            for v5 in (v4 if isinstance(
+                                                v4, list) else [v4])
+                                            if isinstance(v5, ast.AST)
+                                            for x in ast.walk(v5)):
+                                        sites.append([
+                                            (cn.attr, pl) for cn, pl in
+                                            path_conditions(m3, st3)
+                                            if isinstance(cn, ast.Attribute)
+                                            and isinstance(cn.value, ast.Name)
+                                            and cn.value.id == m3.params[0]
+                                            and cn.attr.startswith('has_')])
+                        if sites:
+                            common = set(sites[0])
+                            for s3 in sites[1:]:
+                                common &= set(s3)
+                            for attr3, pl in common:
+                                conds_.append((ast.Attribute(
+                                    value=ast.Name(id=sn, ctx=ast.Load()),
+                                    attr=attr3, ctx=ast.Load()), pl))
+                    for cnd, pol in conds_:
+                        if isinstance(cnd, ast.Attribute) and isinstance(
+                                cnd.value, ast.Name) and cnd.value.id == sn \
+                                and cnd.attr.startswith('has_'):
+                            g_ = cnd.attr[4:]
+                            here = [s_ for s_ in here
+                                    if r0.contains_group(s_, g_) == pol]
+                    lang = set()
+                    for s_ in here:
+                        lang |= rx.language(s_, max_rep=2,
+                                            ignorecase=r0.ignorecase())
+                    if len(lang) > 4000:
+                        raise AnalysisError(
+                            '%s: name language too large' % c.fq)
+                    names = {getattr(x, fold)() for x in lang} if fold \
+                        else set(lang)
+                    rr.instances += 1
+                    missing = sorted(x for x in names if x not in keys)
+                    if missing:
+                        found[(ExcClass('KeyError', builtin=KeyError),
+                               '%s::%s via %s' % (m_.module.rel, m_.qualname,
+                                                  c.name))] = [
+                            '%s:%d %s indexes %s with the token name; %s can '
+                            'produce %s' % (
+                                m_.module.rel, n.lineno, m_.qualname,
+                                n.value.attr, c.name, ', '.join(
+                                    repr(x) for x in missing[:4]) + (
+                                    ' ...' if len(missing) > 4 else ''))]
     allowed_n = 0
     for (c, origin), w in sorted(found.items(), key=lambda kv: (kv[0][0].name,
                                                                 kv[0][1])):
@@ -254,8 +377,81 @@ def rule_arity(ctx):
     if else_raises and else_raises[-1].exc is not None:
         c = ex.exc_of_expr(pa, else_raises[-1].exc)
         good = c is not None and ex.is_sub(c, fe)
-    if good:
+    stale = nxt = None
+    if not else_raises and any(isinstance(x, ast.Break)
+                               for x in ast.walk(loop)):
+        # the sentinel form: `X = None` before the loop, `X = <token>` ...
+        # `break` inside, `if X is None: raise FormulaError` after it.  It is
+        # the for-else only if nothing that can fail sits between the store
+        # and the `break` under a handler that goes on to the next filter -
+        # otherwise a rejected token stays bound and the test after the loop
+        # passes although no filter matched.
+        holder = None
+        for h_ in ast.walk(pa.node):
+            for fld in ('body', 'orelse', 'finalbody'):
+                stmts_ = getattr(h_, fld, None)
+                if isinstance(stmts_, list) and any(x is loop for x in stmts_):
+                    holder = stmts_
+        nxt = holder[holder.index(loop) + 1] if holder is not None and \
+            holder.index(loop) + 1 < len(holder) else None
+        if isinstance(nxt, ast.If) and isinstance(
+                nxt.test, ast.Compare) and len(nxt.test.ops) == 1 and \
+                isinstance(nxt.test.ops[0], ast.Is) and isinstance(
+                nxt.test.left, ast.Name) and isinstance(
+                nxt.test.comparators[0], ast.Constant) and \
+                nxt.test.comparators[0].value is None and any(
+                isinstance(s_, ast.Raise) for s_ in nxt.body):
+            var = nxt.test.left.id
+            rs = [s_ for s_ in nxt.body if isinstance(s_, ast.Raise)]
+            c = ex.exc_of_expr(pa, rs[-1].exc) if rs[-1].exc is not None \
+                else None
+            reset = any(isinstance(s_, ast.Assign) and any(
+                isinstance(t_, ast.Name) and t_.id == var for t_ in s_.targets)
+                and isinstance(s_.value, ast.Constant) and
+                s_.value.value is None
+                for s_ in holder[:holder.index(loop)])
+            good = c is not None and ex.is_sub(c, fe) and reset
+            swallowing = any(
+                h.body and isinstance(h.body[-1], (ast.Pass, ast.Continue))
+                for h in tr.handlers)
+            for blk in ast.walk(loop):
+                for fld in ('body', 'orelse', 'finalbody'):
+                    stmts_ = getattr(blk, fld, None)
+                    if not isinstance(stmts_, list):
+                        continue
+                    for i_, s_ in enumerate(stmts_):
+                        if not (isinstance(s_, ast.Assign) and any(
+                                isinstance(t_, ast.Name) and t_.id == var
+                                for t_ in s_.targets)):
+                            continue
+                        rest = stmts_[i_ + 1:]
+                        upto = [k for k, r_ in enumerate(rest)
+                                if isinstance(r_, ast.Break)]
+                        between = rest[:upto[0]] if upto else rest
+                        risky = [r_ for r_ in between if any(
+                            isinstance(x, ast.Call) for x in ast.walk(r_))]
+                        in_try = any(x is s_ for t_ in [tr]
+                                     for b_ in t_.body for x in ast.walk(b_))
+                        if risky and swallowing and in_try:
+                            stale = (s_, risky[0])
+    if stale is not None:
+        rr.fail(key_of(pa, 'no-filter-matched case'),
+                'the loop binds `%s` (line %d) before `%s`, which can raise '
+                'TokenError under a handler that moves on to the next filter: '
+                'when every filter rejects the text the name is still bound, '
+                'the `is None` test after the loop passes and the text is '
+                'skipped instead of raising FormulaError' % (
+                    norm_src(stale[0].targets[0]), stale[0].lineno,
+                    norm_src(stale[1])[:50]), file=pa.module.rel,
+                function=pa.qualname, line=stale[0].lineno)
+    elif good:
         rr.ok('no filter matched -> FormulaError (for-else)', pa.module.rel)
+    elif not else_raises and any(isinstance(x, ast.Break)
+                                 for x in ast.walk(loop)) and isinstance(
+            nxt, ast.If):
+        # some test follows the loop, but not one this rule can read
+        raise AnalysisError('Parser.ast: how the loop over the filters '
+                            'reports that none matched was not recognised')
     else:
         rr.fail(key_of(pa, 'no-filter-matched case'),
                 'when no token class matches the rest of the input the loop '
